@@ -80,20 +80,23 @@ _bitwisenot = intern("bitwisenot")
 
 _PREC_COMMA = 5  # must be > 1 (1 is used by fortran-to-cl)
 _PREC_SLICE = 10
+_PREC_IF_ELSE = 70  # operand after 'else': may be a conditional, not a tuple/slice
 _PREC_IF = 75
 _PREC_LOGICAL_OR = 80
 _PREC_LOGICAL_AND = 90
+_PREC_LOGICAL_NOT = 95
 
-_PREC_BITWISE_OR = 120
+_PREC_COMPARISON = 100
+
+_PREC_BITWISE_OR = 110
 _PREC_BITWISE_XOR = 120
 _PREC_BITWISE_AND = 130
 
-_PREC_COMPARISON = 200
 _PREC_SHIFT = 205
 _PREC_PLUS = 210
 _PREC_TIMES = 220
+_PREC_UNARY = 225
 _PREC_POWER = 230
-_PREC_UNARY = 240
 _PREC_CALL = 250
 
 
@@ -264,7 +267,7 @@ class Parser:
             pstate.advance()
             from pymbolic.primitives import LogicalNot
             left_exp = LogicalNot(
-                    self.parse_expression(pstate, _PREC_UNARY))
+                    self.parse_expression(pstate, _PREC_LOGICAL_NOT))
         elif pstate.is_next(_bitwisenot):
             pstate.advance()
             from pymbolic.primitives import BitwiseNot
@@ -364,7 +367,7 @@ class Parser:
             condition = self.parse_expression(pstate, _PREC_IF)
             pstate.expect(_else)
             pstate.advance()
-            else_expr = self.parse_expression(pstate)
+            else_expr = self.parse_expression(pstate, _PREC_IF_ELSE)
             left_exp = If(condition, then_expr, else_expr)
             did_something = True
         elif next_tag is _dot and _PREC_CALL > min_precedence:
@@ -392,7 +395,7 @@ class Parser:
             did_something = True
         elif next_tag is _times and _PREC_TIMES > min_precedence:
             pstate.advance()
-            right_exp = self.parse_expression(pstate, _PREC_PLUS)
+            right_exp = self.parse_expression(pstate, _PREC_TIMES)
             if isinstance(left_exp, primitives.Product):
                 left_exp = primitives.Product((*left_exp.children, right_exp))
             else:
